@@ -239,6 +239,15 @@ def run_case(c):
                                 res.violation('rfi-log:slice-limits', '%s, then [:, %r]: the block has limits %r, its channels had %r' % (what, sl, blk.range(), [t.range(j) for j in range(3)[sl]]), one)
                                 break
                     check_empty(res, what, 'rfi-log', d, t, lambda x: FlowCal.transform.to_rfi(x, chans), one)
+            # channels converted in several calls, each on the result of the previous one: the channels converted earlier keep the limits
+            # they got, the one converted now gets its own
+            if 'sub' not in c:
+                for first, second in (([0], [1]), ([1], [2, 0]), ([0, 2], [1]), ([2], [0])):
+                    t1 = FlowCal.transform.to_rfi(d, first)
+                    t2 = FlowCal.transform.to_rfi(t1, second)
+                    what = 'to_rfi(to_rfi(sample, %r), %r) (log amplifier a0=%r a1=%r, resolutions %r)' % (first, second, c['a0'], c['a1'], c['res'])
+                    if check_limits(res, what, 'rfi-log:chain', t1, t2, second, dict(c), 3) and check_limits(res, what + ' [whole chain]', 'rfi-log:chain', d, t2, sorted(first + second), dict(c), 3):
+                        res.ok('rfi-log:chain', True)
             res.sample({'kind': k, 'a0': c['a0'], 'a1': c['a1'], 'resolutions': c['res'], 'channel_subsets': subsets(3)})
         elif k == 'rfi-lin':
             d = make_sample(c['res'], ['0,0'] * 3, c['gains'])
